@@ -567,7 +567,7 @@ func (e *Eng) actIntrospectEndpoint() {
 	}
 	hint := pick(t, []string{"", "access_token", "refresh_token", "garbage"}, "hint")
 	var req []string
-	switch rapid.IntRange(0, 5).Draw(t, "requireScope") {
+	switch rapid.IntRange(0, 6).Draw(t, "requireScope") {
 	case 5:
 		// a scope that was requested at authorization time but declined by the user
 		if d := c.G.Extra["declined"]; d != "" {
@@ -589,6 +589,14 @@ func (e *Eng) actIntrospectEndpoint() {
 		}
 	case 2:
 		req = append(append([]string{}, c.G.Scopes...), "zzz")
+	case 4:
+		// dotted names: a child of a granted scope (covered under the hierarchic strategy only), or a name that merely
+		// starts with the letters of a granted scope and has a dot somewhere later (covered under none)
+		if len(c.G.Scopes) > 0 {
+			g0 := pick(t, c.G.Scopes, "dottedFrom")
+			req = []string{g0 + pick(t, []string{".read", ".read.all", "ing.read", "s.payable.write", "_admin.delete", "."}, "suffix")}
+			e.label("introspect-requires-dotted-scope")
+		}
 	}
 	form := url.Values{"token": {token}}
 	if hint != "" {
@@ -680,8 +688,11 @@ func (e *Eng) actIntrospectEndpoint() {
 	}
 	covered := true
 	for _, s := range req {
-		if !hasExact(c.G.Scopes, s) {
+		switch h.RefScope(h.RefScopeByName(e.scopeStrategy), c.G.Scopes, s) {
+		case h.No:
 			covered = false
+		case h.Unspecified:
+			return
 		}
 	}
 	refreshDisabled := e.w.Cfg.DisableRefreshTokenValidation
